@@ -346,6 +346,28 @@ def run_tracks_case(case):
     return '(' + ' '.join(f'({sx.atom(b)} {sx.atom(l)})' for b, l in out) + ')'
 
 
+def tracks_family():
+    """Deterministic family for 1.3 -> 1.4 -> 1.5 of `_resolve_tracks_sizes`: a `minmax(<length>, <larger length>)`
+    track whose growth limit is reached by the equal share of the free space (sometimes two of them, sometimes one
+    that is not reached), next to a flexible track (1fr, 2fr, 1/2fr), an `auto` track (stretched or not) and / or a fixed
+    track, in every order of the first two."""
+    cases = []
+    px = lambda v: ('px', F(v))
+    for box in (100, 240):
+        for gap in (0, 10):
+            for lo, hi in ((0, 10), (10, 30), (20, 200)):
+                for flexible in ((('auto', ('fr', F(1))),), (('auto', ('fr', F(2))), ('auto', ('fr', F(1)))),
+                                 (('auto', ('fr', F(1, 2))),), (('auto', 'auto'),), ((px(5), ('fr', F(1))),)):
+                    for extra in ((), ((px(20), px(20)),), ((px(0), px(15)),)):
+                        for order in (0, 1):
+                            mm = ((px(lo), px(hi)),)
+                            fns = list((mm + flexible if order == 0 else flexible + mm) + extra)
+                            for stretch in ('normal', 'start'):
+                                cases.append({'fns': fns, 'box': box, 'start': 0, 'dir': 'xy'[order], 'gap': gap,
+                                              'stretch': stretch, 'contribs': []})
+    return cases
+
+
 def wire_tracks_case(case):
     contribs = [[c, sz, w + 2 * m, w + 2 * m, 0] for c, sz, w, m in case['contribs']]
     return sx.line('tracks', [[wire_breadth(a), wire_breadth(b)] for a, b in case['fns']], case['box'], contribs,
